@@ -1,5 +1,6 @@
 /* C16: page-level might-match (src/metadata/page_index.c, real file included).
- * CQV_PT: 1 = INT32 column (plain little-endian 4-byte bounds, signed order), 6 = BYTE_ARRAY (lexicographic, len <= 8). */
+ * CQV_PT = physical type: 1 INT32, 2 INT64, 4 FLOAT, 5 DOUBLE (plain little-endian bounds of the type's width, compared by
+ * value), 6 = BYTE_ARRAY (lexicographic, len <= 8). */
 #include "cqv.h"
 #include <stdlib.h>
 #include <stdbool.h>
@@ -22,27 +23,46 @@ static carquet_column_index_builder_t *mk_index(uint8_t *pmin, int32_t pminl, ui
   b->null_pages[0] = null_page;
   return b;
 }
-static uint8_t *le_bytes(uint32_t v) {
-  uint8_t *p = malloc(4);
+#if CQV_PT == 1
+typedef int32_t pv_t;
+#elif CQV_PT == 2
+typedef int64_t pv_t;
+#elif CQV_PT == 4
+typedef float pv_t;
+#elif CQV_PT == 5
+typedef double pv_t;
+#endif
+
+#if CQV_PT != 6
+/* plain encoding of a numeric bound: the little-endian bytes of the value, exact-size heap object */
+static pv_t pv_from_bits(uint64_t b) {
+  pv_t v; uint8_t *q = (uint8_t *)&v;
+  for (unsigned i = 0; i < sizeof(pv_t); i++) q[i] = (uint8_t)(b >> (8 * i));
+  return v;
+}
+static uint8_t *le_bytes(uint64_t b) {
+  uint8_t *p = malloc(sizeof(pv_t));
   __CPROVER_assume(p != NULL);
-  p[0] = (uint8_t)v; p[1] = (uint8_t)(v >> 8); p[2] = (uint8_t)(v >> 16); p[3] = (uint8_t)(v >> 24);
+  for (unsigned i = 0; i < sizeof(pv_t); i++) p[i] = (uint8_t)(b >> (8 * i));
   return p;
 }
-
-#if CQV_PT == 1
-void h_page_might_match_i32(void) {
-  int32_t pmin = nondet_i32(), pmax = nondet_i32(), qmin = nondet_i32(), qmax = nondet_i32(), x = nondet_i32();
+/* numeric column (signed order for INT32/INT64, IEEE order for FLOAT/DOUBLE): a page whose true bounds enclose
+ * a value x that lies in the query range must be reported as 'might match' */
+void h_page_might_match_num(void) {
+  uint64_t pmin = nondet_u64(), pmax = nondet_u64(), qmin = nondet_u64(), qmax = nondet_u64(), x = nondet_u64();
   unsigned present = nondet_unsigned();
-  carquet_column_index_builder_t *b = mk_index((present & 1) ? le_bytes((uint32_t)pmin) : NULL, 4, (present & 2) ? le_bytes((uint32_t)pmax) : NULL, 4, false);
-  uint8_t *qmn = (present & 4) ? le_bytes((uint32_t)qmin) : NULL, *qmx = (present & 8) ? le_bytes((uint32_t)qmax) : NULL;
+  const int32_t L = (int32_t)sizeof(pv_t);
+  carquet_column_index_builder_t *b = mk_index((present & 1) ? le_bytes(pmin) : NULL, L, (present & 2) ? le_bytes(pmax) : NULL, L, false);
+  uint8_t *qmn = (present & 4) ? le_bytes(qmin) : NULL, *qmx = (present & 8) ? le_bytes(qmax) : NULL;
   bool mm = nondet_bool();
-  carquet_status_t st = carquet_column_index_page_might_match(b, 0, qmn, qmx, 4, &mm);
+  carquet_status_t st = carquet_column_index_page_might_match(b, 0, qmn, qmx, L, &mm);
   __CPROVER_assert(st == CARQUET_OK, "valid page index succeeds");
-  _Bool in_page = (!(present & 1) || pmin <= x) && (!(present & 2) || x <= pmax);
-  _Bool in_query = (!(present & 4) || qmin <= x) && (!(present & 8) || x <= qmax);
+  pv_t xv = pv_from_bits(x);
+  _Bool in_page = (!(present & 1) || pv_from_bits(pmin) <= xv) && (!(present & 2) || xv <= pv_from_bits(pmax));
+  _Bool in_query = (!(present & 4) || pv_from_bits(qmin) <= xv) && (!(present & 8) || xv <= pv_from_bits(qmax));
   if (in_page && in_query) { __CPROVER_assert(mm, "page holding a value inside the query range might match"); CQV_CANARY("pmm: witness"); }
   if (!mm) CQV_CANARY("pmm: can prune");
-  CQV_CANARY("pmm i32 end");
+  CQV_CANARY("pmm num end");
 }
 #else
 #define ML 8
